@@ -170,7 +170,7 @@ func (g *vfE2ERun) newOpts(dataPath string) *Options {
 	opts := NewOptions()
 	opts.Logger = nil
 	opts.LogLevel = LOG_FATAL
-	opts.TCPAddress, opts.HTTPAddress, opts.HTTPSAddress = "127.0.0.1:0", "127.0.0.1:0", "127.0.0.1:0"
+	opts.TCPAddress, opts.HTTPAddress, opts.HTTPSAddress = vfLoop3()
 	opts.DataPath = dataPath
 	opts.MemQueueSize = 3
 	opts.MaxBytesPerFile = 4096
